@@ -42,3 +42,61 @@ def parseInt (s : String) : Int := s.toInt?.getD 0
 def parseNat (s : String) : Nat := s.toNat?.getD 0
 
 end PRV.Driver
+
+namespace PRV.Driver
+
+/-- A monitor sees each operation *together with* what the implementation answered and returns
+complaints (empty = fine).  Used where the specification is a relation (bounds, clauses) or where
+the comparison with the model needs arithmetic (exact rationals vs float64). -/
+structure Monitor where
+  σ : Type
+  init : σ
+  step : σ → List String → List (List String) → σ × List String
+
+partial def monLoop (m : Monitor) (inp out : IO.FS.Stream) (s : m.σ)
+    (pending : Option (String × List (List String))) : IO Unit := do
+  let flush (s : m.σ) : IO m.σ := do
+    match pending with
+    | none => return s
+    | some (op, outs) =>
+      let (s', cs) := m.step s (tokens op) outs.reverse
+      for c in cs do out.putStrLn ("! " ++ c ++ " @ " ++ op)
+      return s'
+  let line ← inp.getLine
+  if line.isEmpty then
+    let _ ← flush s
+    return ()
+  let line := String.ofList (line.toList.reverse.dropWhile (fun c => c = '\n' || c = '\r')).reverse
+  if line.startsWith "# case" then
+    let _ ← flush s
+    out.putStrLn line
+    monLoop m inp out m.init none
+  else if line.startsWith "> " then
+    let s' ← flush s
+    monLoop m inp out s' (some (String.ofList (line.toList.drop 2), []))
+  else if line.startsWith "< " then
+    match pending with
+    | some (op, outs) =>
+      monLoop m inp out s (some (op, tokens (String.ofList (line.toList.drop 2)) :: outs))
+    | none => monLoop m inp out s none
+  else
+    monLoop m inp out s pending
+
+def runMonitor (m : Monitor) : IO Unit := do
+  let inp ← IO.getStdin
+  let out ← IO.getStdout
+  monLoop m inp out m.init none
+  out.flush
+
+/-- "num/den" or "num" -/
+def parseRat (s : String) : Option Rat :=
+  match s.splitOn "/" with
+  | [n] => n.toInt?.map (fun x => (x : Rat))
+  | [n, d] => match n.toInt?, d.toNat? with
+      | some x, some y => if y = 0 then none else some ((x : Rat) / (y : Rat))
+      | _, _ => none
+  | _ => none
+
+def showRat (r : Rat) : String := if r.den = 1 then toString r.num else s!"{r.num}/{r.den}"
+
+end PRV.Driver
